@@ -55,6 +55,10 @@ theorem writeCell (g : Sig) (c : CellId) (v : Val) : NoSig g (Jqawk.writeCell c 
   intro s s' h; cases h
 theorem setHeap (g : Sig) (h : Heap) : NoSig g (Jqawk.setHeap h) := by intro s s' h; cases h
 theorem emit (g : Sig) (b : Bytes) : NoSig g (Jqawk.emit b) := by intro s s' h; cases h
+theorem allocArrM (g : Sig) (items : Array CellId) : NoSig g (Jqawk.allocArrM items) := by
+  intro s s' h; cases h
+theorem allocObjM (g : Sig) (m : List (Bytes × CellId)) : NoSig g (Jqawk.allocObjM m) := by
+  intro s s' h; cases h
 theorem modifySt (g : Sig) (f : St → St) : NoSig g (Jqawk.modifySt f) := by intro s s' h; cases h
 
 theorem pushFrame (g : Sig) (name : Bytes) : NoSig g (Jqawk.pushFrame name) := by
@@ -83,6 +87,8 @@ macro "nosig_step" : tactic => `(tactic| with_reducible_and_instances first
   | exact NoSig.writeCell _ _ _
   | exact NoSig.setHeap _ _
   | exact NoSig.emit _ _
+  | exact NoSig.allocArrM _ _
+  | exact NoSig.allocObjM _ _
   | exact NoSig.modifySt _ _
   | exact NoSig.setLocal _ _ _
   | exact NoSig.pushFrame _ _
